@@ -1,6 +1,7 @@
 import RxModel.Lemmas.Lift
 import RxModel.Props.C05
 import RxModel.Props.C09
+import RxModel.Props.C02
 /-!
 # C11 — streaming promptness: results are emitted with the item that determines them
 
@@ -102,5 +103,41 @@ with its closing item -/
 theorem C11_wrap_chunk {α β} (sp : Splitter α) (Q : MuxOp α β) (st : sp.S × Q.S) (e : Ev α) :
     ((wrap sp Q).step st e).2 =
       demux (runGroup Q.step st.2 (sp.step st.1 e).2.1).2 ++ (sp.step st.1 e).2.2.map OEv.toEv := rfl
+
+/-! ## nested pipelines: every output sits in the chunk of the item that determines it -/
+
+theorem lifetime_wf {α} (k : Key) (xs : List α) : WFClosed ([Ev.create k] ++ xs.map (Ev.next k) ++ [Ev.done k]) := by
+  unfold WFClosed
+  have key : ∀ xs : List α, wfLive [k] (xs.map (Ev.next k) ++ [Ev.done k]) = some [] := by
+    intro xs; induction xs with
+    | nil => simp [wfLive, wfStep]
+    | cons x xs ih => simpa [wfLive, wfStep] using ih
+  simpa [wfLive, wfStep] using key xs
+
+theorem lifetime_clean {α} (k : Key) (xs : List α) : CleanTr ([Ev.create k] ++ xs.map (Ev.next k) ++ [Ev.done k]) := by
+  refine ⟨?_, ?_⟩
+  · intro e he
+    simp only [List.mem_append, List.mem_singleton, List.mem_map] at he
+    rcases he with (rfl | ⟨_, _, rfl⟩) | rfl <;> rfl
+  · intro e he
+    simp only [List.mem_append, List.mem_singleton, List.mem_map] at he
+    rcases he with (rfl | ⟨_, _, rfl⟩) | rfl <;> rfl
+
+/-- **chunk by chunk, nested pipelines**: over one key lifetime, the index-addressed implementation
+of any nested pipeline (group_by / roll / split / time_split around inner pipelines, tee_map around
+branches, any depth) emits in the chunk of item `i` exactly what the pipeline's local meaning emits
+for item `i`, and in the completion chunk what it emits at completion — nothing earlier, nothing
+later.  (For `wrap`, the local chunk of an item is the inner pipelines' output on the commands the
+splitter issues for that item: a window's result is emitted with its closing item.) -/
+theorem C11_chunks_nested (P : Pipe) (h : P.Nested) (k : Key) (xs : List Val) :
+    P.mux.run ([.create k] ++ xs.map (.next k) ++ [.done k]) =
+      [[.create k]] ++ (P.loc.runL P.loc.init xs).1.map (fun c => c.map (liftOut k)) ++
+        [(P.loc.runL P.loc.init xs).2.map (liftOut k) ++ [.done k]] := by
+  rw [impl_eq_ref_nested P h _ (wf_of_closed (lifetime_wf k xs)) (lifetime_clean k xs)]
+  exact (C02_lifetime P.loc k xs (fun _ => none)).1
+
+/-- the local chunk of `wrap` for one item: the inner operator run on the commands of that item -/
+theorem C11_wrap_local_chunk {α β} (ls : LSplit α) (L : LocalOp α β) (s : (localWrap ls L).σ) (x : α) :
+    ((localWrap ls L).next s x).2 = (runGroup (cmdStep L) s.2 (ls.next s.1 x).2).2.map demuxL := rfl
 
 end Rx
